@@ -708,7 +708,8 @@ def gen_module(rng, mi, thorough):
        all  U1000 functions in shared files that only some tagged file uses.
     The first item of shared0.go is always an 'all' check other than U1000 (SA4003 or S1002) that
     depends on a tag, and the configurations always contain one with and one without that tag: the
-    problem is reported under a strict subset of the configurations that check the file."""
+    problem is reported under a strict subset of the configurations that check the file.  The second
+    item is an 'any' problem (SA4000, with End position, not on line 1) that every configuration reports."""
     nsh = 1 + rng.below(2)
     files = {}
     users = []          # (constraint, function name)
@@ -716,9 +717,11 @@ def gen_module(rng, mi, thorough):
     need = "b" if forced == 2 else "c"
     for s in range(nsh):
         lines = ["package p", ""]
-        for k in range(1 + rng.below(3)):
+        for k in range((2 if s == 0 else 1) + rng.below(3)):
             n = "s%d_%d" % (s, k)
-            kind = forced if (s, k) == (0, 0) else rng.below(6)
+            # shared0.go: first the tag-dependent 'all' check, then an 'any' problem with an End position that every
+            # configuration reports (so runs made in the LF and in the CRLF checkout always have a problem in common)
+            kind = forced if (s, k) == (0, 0) else 0 if (s, k) == (0, 1) else rng.below(6)
             if kind == 0:
                 lines += ["func any_%s(x int) bool { return x == x }" % n, "var _ = any_%s" % n, ""]
             elif kind == 1:
@@ -1298,7 +1301,7 @@ def run(ctx):
                       text="C12: registered analyzer names collide after case folding: %s" % clash)
 
     rng = vlib.SplitMix(ctx.seed).fork("C12")
-    ncases, ngroups, nmods, nparse = (28, 16, 3, 40) if ctx.quick else (400, 16, 12, 400)
+    ncases, ngroups, nmods, nparse = (28, 16, 3, 40) if ctx.quick else (300, 16, 10, 300)
     corpus = [norm_runs(c) for c in CORPUS]
     cdir = os.path.join(vlib.VERIF, "corpus", "C12")
     if os.path.isdir(cdir):
